@@ -386,9 +386,34 @@ func rulesSymmetrical(c *Ctx, r *Report, f *ssa.Function) {
 
 func rulesGoString(c *Ctx, r *Report, f *ssa.Function) {
 	where := fname(f)
+	// the keys may be collected and sorted by a helper stage that receives the matrix
+	kf := f
+	hasSort := func(g *ssa.Function) bool {
+		found := false
+		instrs(g, func(in ssa.Instruction) {
+			if cl, ok := in.(*ssa.Call); ok && cl.Call.StaticCallee() != nil {
+				qn := qname(cl.Call.StaticCallee())
+				if qn == "sort.Slice" || strings.HasPrefix(qn, "slices.SortFunc") || strings.HasPrefix(qn, "slices.SortStableFunc") {
+					found = true
+				}
+			}
+		})
+		return found
+	}
+	var keyCall *ssa.Call
+	if !hasSort(f) {
+		instrs(f, func(in ssa.Instruction) {
+			if cl, ok := in.(*ssa.Call); ok {
+				if g := cl.Call.StaticCallee(); g != nil && g.Blocks != nil && c.inModule(g) && len(cl.Call.Args) == 1 && cl.Call.Args[0] == ssa.Value(f.Params[0]) && hasSort(g) {
+					kf, keyCall = g, cl
+					r.analysed(fname(g))
+				}
+			}
+		})
+	}
 	// keys collected from a range over m into a slice, sort.Slice with bytes.Compare(sorted[i], sorted[j]) < 0
 	var sortCall *ssa.Call
-	instrs(f, func(in ssa.Instruction) {
+	instrs(kf, func(in ssa.Instruction) {
 		if cl, ok := in.(*ssa.Call); ok && fnIs(cl.Call.StaticCallee(), "sort", "Slice") {
 			sortCall = cl
 		}
@@ -396,7 +421,7 @@ func rulesGoString(c *Ctx, r *Report, f *ssa.Function) {
 	if sortCall == nil {
 		// slices.SortFunc(keys, bytes.Compare): the same order, stated directly
 		var sf *ssa.Call
-		instrs(f, func(in ssa.Instruction) {
+		instrs(kf, func(in ssa.Instruction) {
 			if cl, ok := in.(*ssa.Call); ok {
 				if g := cl.Call.StaticCallee(); g != nil && g.Pkg == nil || g != nil && g.Pkg != nil && g.Pkg.Pkg.Path() == "slices" {
 					if strings.HasPrefix(g.Name(), "SortFunc") || strings.HasPrefix(g.Name(), "SortStableFunc") {
@@ -469,9 +494,9 @@ func rulesGoString(c *Ctx, r *Report, f *ssa.Function) {
 		r.check(okLess, "GS", where, "sorted by key", c.pos(sortCall.Pos()), "keys are sorted by bytes.Compare(keys[i], keys[j]) < 0: ascending key order", "the sort's less function is not bytes.Compare(sorted[i], sorted[j]) < 0 on the key bytes: the listing is not in ascending key order for all symbols (e.g. escaped characters sort differently as text)")
 	}
 	// the sorted slice holds every key: appended in a range over m
-	s := newSymb(f)
+	s := newSymb(kf)
 	okKeys := false
-	instrs(f, func(in ssa.Instruction) {
+	instrs(kf, func(in ssa.Instruction) {
 		cl, ok := in.(*ssa.Call)
 		if !ok {
 			return
@@ -503,6 +528,33 @@ func rulesGoString(c *Ctx, r *Report, f *ssa.Function) {
 	})
 	r.check(okKeys, "GS", where, "every key collected", c.pos(f.Pos()), "every key of the map is appended as {k[0], k[1]} before sorting", "the key list is not built by appending {k[0], k[1]} for every key of the map")
 	// the printing loop: Fprintf(buf, "{%s,%s}:%v,\n", charOrGap(k[0]), charOrGap(k[1]), m.Get(k[0], k[1])) for k in sorted
+	if kf != f {
+		s = newSymb(f)
+		// the helper returns the slice it sorted
+		okRet := true
+		sortedExpr := ""
+		ks := newSymb(kf)
+		instrs(kf, func(in ssa.Instruction) {
+			if cl, ok := in.(*ssa.Call); ok && cl.Call.StaticCallee() != nil {
+				qn := qname(cl.Call.StaticCallee())
+				if qn == "sort.Slice" || strings.HasPrefix(qn, "slices.Sort") {
+					a0 := cl.Call.Args[0]
+					if mi, ok := a0.(*ssa.MakeInterface); ok {
+						a0 = mi.X
+					}
+					sortedExpr = ks.expr(a0).String()
+				}
+			}
+		})
+		instrs(kf, func(in ssa.Instruction) {
+			if rt, ok := in.(*ssa.Return); ok {
+				if ops := retOperands(rt); len(ops) != 1 || ks.expr(ops[0]).String() != sortedExpr {
+					okRet = false
+				}
+			}
+		})
+		r.check(okRet && keyCall != nil, "GS", fname(kf), "returns the sorted keys", c.pos(kf.Pos()), "the helper returns the key list it sorted", "the helper does not return the list it sorted")
+	}
 	okLine := false
 	for _, fc := range fmtCallsIn(f) {
 		if fc.format == nil || *fc.format != "{%s,%s}:%v,\n" || len(fc.args) != 3 {
